@@ -33,7 +33,7 @@ class Check(RecordingCheck):
             "an import; scheduler traces: 3 workflows x 3 edit histories; oracle: end-to-end runs of real workflows")
 
     def correspond(self):
-        n = 50 if self.tier == "quick" else 900
+        n = 50 if self.tier == "quick" else 700
         self.mismatches = self.correspond_ops(n, 0.45, f"C03_{os.getpid()}")
         self.correspond_traces(f"C03t_{os.getpid()}")
 
@@ -95,6 +95,7 @@ class Check(RecordingCheck):
             rl.cleanup_workloads()
         self.evaluations += n
         self.stat("oracle", "end_to_end_histories", n)
+        self.findings.sort(key=lambda f: 0 if "stale-shallow-hit" in f.key else 1)    # wrong results first
         from harness.lib import load_known_findings
         known = {k["key"] for k in load_known_findings() if k.get("property") == self.id}
         unknown = [f for f in self.findings if f.key not in known]
@@ -108,7 +109,7 @@ class Check(RecordingCheck):
     def history_cases(self):
         demo = rl.Program.demo()
         cases = [(demo, [3, 2]), (demo, [2, 3]), (demo, [3, 1, 2])]
-        for _ in range(6 if self.tier == "quick" else 80):
+        for _ in range(6 if self.tier == "quick" else 40):
             prog = rl.Program.random(self.rng)
             k = self.rng.randint(2, min(4, prog.n))
             order = self.rng.random()
@@ -144,9 +145,15 @@ class Check(RecordingCheck):
             if incomplete:
                 problems.append(("subtree-rows-incomplete", f"after run {step}: CallSubtreeTask rows miss tasks of recorded "
                                                             f"descendants: {incomplete[:3]}"))
-            if problems:
+            if any(c != "subtree-rows-incomplete" for c, _ in problems):
                 break
         os.unlink(db)
+        seen, uniq = set(), []
+        for c, w in problems:               # one report per class and history
+            if c not in seen:
+                seen.add(c)
+                uniq.append((c, w))
+        problems = uniq
         return problems
 
     def oracle_histories(self, work):
